@@ -51,6 +51,17 @@ def run(ck):
             "Queue::head and Entry::next are std::atomic<Entry*>; Queue::pop loads next with acquire or stronger, advances tail to "
             "the loaded node and returns null exactly when next is null", 3)
 
+    # the descriptor a pollable queue signals through: the field its bind() registers with the poller (in PollableQueue itself or in
+    # a member object that holds the eventfd for it)
+    EFD = set()
+    for fb in prog.find("Pistache::PollableQueue::bind", 1):
+        for e in fb.calls(lambda e: (e.get("callee") or "") == "Pistache::Polling::Epoll::addFd"):
+            fq = strip_tmpl(((e.get("args") or [{}])[0].get("f") or ""))
+            if fq:
+                EFD.add(fq)
+    ck.require(EFD, "PollableQueue::bind does not register a member descriptor with the poller")
+    is_efd = lambda a_: strip_tmpl((a_ or {}).get("f") or "") in EFD
+
     # ---------------- R1 ----------------
     pushes = prog.find("Pistache::Queue::push", 2)
     for f in pushes:
@@ -84,7 +95,7 @@ def run(ck):
         if ok:
             dom = cfg.dominators(f)
             fdarg = (wr[0]["args"][0].get("f") or "")
-            ok = cfg.ev_dominates(dom, qp[0], wr[0]) and strip_tmpl(fdarg).endswith("PollableQueue::event_fd")
+            ok = cfg.ev_dominates(dom, qp[0], wr[0]) and is_efd(wr[0]["args"][0])
             # conditions guarding the write
             guards = []
             for b in f.blocks.values():
@@ -109,7 +120,7 @@ def run(ck):
     # ---------------- R2 ----------------
     pops = prog.find("Pistache::PollableQueue::pop", 2)
     summ = lib.Summaries(prog)
-    is_efd_read = lambda ev: is_libc(ev, "read") and strip_tmpl((ev["args"][0].get("f") or "")).endswith("PollableQueue::event_fd")
+    is_efd_read = lambda ev: is_libc(ev, "read") and is_efd(ev["args"][0])
     must_drain = summ.lift_must(is_efd_read, "eventfd-read")
     may_drain = summ.lift_may(is_efd_read, "eventfd-read")
     for f in pops:
